@@ -901,7 +901,7 @@ func (e *aquaEnv) enableTxs(c *fw.Ctx, r *fw.Rand) {
 func runAqua(c *fw.Ctx) {
 	r0 := c.Rand("aqua-env")
 	var e *aquaEnv
-	c.Case("aqua-setup", map[string]string{"what": "24-block chain, protocol manager, tx pool"}, func() {
+	setupCase(c, "aqua-setup", map[string]string{"what": "24-block chain, protocol manager, tx pool"}, func() {
 		var err error
 		e, err = newAquaEnv(r0, 24, 6)
 		if err != nil {
